@@ -160,7 +160,7 @@ JudgeFind(c) ==
            obs == {<<c.out[k][1], c.out[k][2], c.out[k][4]>> : k \in 1..Len(c.out)}
            missed == {r \in exp \ obs : ~Open(c, r)}
            spurious == obs \ exp IN
-    IF spurious # {} THEN <<"spurious", "">>
+    IF spurious # {} \/ c.more > 0 THEN <<"spurious", "">>      \* more > 0: thousands of result lines beyond those handed over
     ELSE IF missed # {} THEN <<IF \A r \in missed : TailOnly(c, seq, r) THEN "missed-at-end-of-memory" ELSE "missed", "">>
     ELSE <<"ok", IF Cardinality(obs) # Len(c.out) THEN "duplicates"
                  ELSE IF \E k \in 1..Len(c.out) : c.out[k][3] # c.out[k][2] + (Len(seq) - 1) * c.out[k][4] THEN "end-field"
